@@ -430,3 +430,51 @@ pub proof fn lemma_clear_extract(x: nat, o: nat, b: nat)
     assert(a / po == qq * pb);
     lemma_fundamental_div_mod_converse(qq * pb, pb, qq, 0);
 }
+
+/// what `replace_bits` means bit range by bit range: the written range reads back as v, the bits below `o` and the bits
+/// from `o + b` upwards are those of `full` (so EVERY other bit is unchanged), and the result still fits n bits
+pub proof fn lemma_replace_bits(full: nat, o: nat, b: nat, v: nat, n: nat)
+    requires full < pow2(n), o + b <= n, v < pow2(b),
+    ensures
+        extract(replace_bits(full, o, b, v), o, b) == v,
+        replace_bits(full, o, b, v) % pow2(o) == full % pow2(o),
+        replace_bits(full, o, b, v) / pow2(o + b) == full / pow2(o + b),
+        replace_bits(full, o, b, v) < pow2(n),
+{
+    lemma_extract_bound(full, o, b);
+    lemma_pow2_pos(o);
+    lemma_pow2_pos(b);
+    lemma_pow2_adds(o, b);
+    lemma_pow2_mono(o + b, n);
+    let po = pow2(o) as int;
+    let pb = pow2(b) as int;
+    let q = full as int / po;
+    let lo = full as int % po;
+    lemma_fundamental_div_mod(full as int, po);
+    lemma_mod_bound(full as int, po);
+    let e = q % pb;
+    let hi = q / pb;
+    lemma_fundamental_div_mod(q, pb);
+    lemma_mod_bound(q, pb);
+    lemma_div_pos_is_pos(full as int, po);
+    lemma_div_pos_is_pos(q, pb);
+    lemma_div_denominator(full as int, po, pb);
+    assert(po * pb == pow2(o + b));
+    assert(full as int / (po * pb) == hi);
+    let r = replace_bits(full, o, b, v) as int;
+    let mid = hi * pb + v as int;
+    assert(r == mid * po + lo) by (nonlinear_arith)
+        requires r == full as int - e * po + v as int * po, full as int == po * q + lo, q == pb * hi + e, mid == hi * pb + v as int;
+    assert(hi * pb >= 0) by (nonlinear_arith) requires hi >= 0, pb > 0;
+    lemma_fundamental_div_mod_converse(r, po, mid, lo);
+    lemma_fundamental_div_mod_converse(mid, pb, hi, v as int);
+    lemma_div_denominator(r, po, pb);
+    // bound: hi < 2^(n-o-b)
+    let k = (n - o - b) as nat;
+    lemma_pow2_adds(o + b, k);
+    lemma_pow2_pos(k);
+    assert(hi < pow2(k)) by (nonlinear_arith)
+        requires (full as int) < pow2(o + b) * pow2(k), full as int == po * q + lo, q == pb * hi + e, lo >= 0, e >= 0, po * pb == pow2(o + b), po > 0, pb > 0, hi >= 0;
+    assert(r < pow2(n)) by (nonlinear_arith)
+        requires r == (hi * pb + v as int) * po + lo, hi < pow2(k), (v as int) < pb, lo < po, pow2(n) == (po * pb) * pow2(k), po > 0, pb > 0, hi >= 0;
+}
